@@ -16,7 +16,13 @@ pub fn run(sh: &mut Shell, cl: &CommandLine, cmd: &Command,
         return cr;
     }
 
+    // `source` runs the file in the current shell: a `set -e` of the
+    // caller stays in effect afterwards
+    let exit_on_error = sh.exit_on_error;
     let status = scripting::run_script(sh, &args);
+    if exit_on_error {
+        sh.exit_on_error = true;
+    }
     cr.status = status;
     cr
 }
